@@ -275,11 +275,35 @@ def _run_concurrent(params: dict) -> dict:
             await bench.drive(t, state, slow_steps=slow)
             n_ops0 = len(tm.ops)
 
-            async def issue(op, delay):
+            # 'eager': the operation's coroutine object is created first (transfer.state is looked up NOW, as in
+            # manage_shares_changed's tasks.append(upload.state.abort(...))) and awaited later; 'lazy': looked up
+            # when the issuer runs
+            eager = rng.random() < 0.5
+
+            def make(op):
+                if op.startswith('api_'):
+                    return bench.apply(t, op)
+                if op == 'fail':
+                    return t.state.fail(reason='Cancelled')
+                if op == 'abort':
+                    return t.state.abort(reason='Requested')
+                return getattr(t.state, op)()
+
+            async def issue(op, delay, coro=None):
                 for _ in range(delay):
                     await asyncio.sleep(0)
+                if coro is not None:
+                    r = await coro
+                    return r if isinstance(r, tuple) else ('ok', r)
                 return await bench.apply(t, op)
-            outcomes = await asyncio.gather(*[issue(o, d) for o, d in zip(ops, staggers)], return_exceptions=True)
+            if eager:
+                coros = [make(o) for o in ops]
+                outcomes = await asyncio.gather(*[issue(o, d, c) for o, d, c in zip(ops, staggers, coros)],
+                                                return_exceptions=True)
+                # api_* coroutines raise InvalidStateTransition through bench.apply (already mapped)
+            else:
+                outcomes = await asyncio.gather(*[issue(o, d) for o, d in zip(ops, staggers)], return_exceptions=True)
+            runner.add_obs(res, 'eager_lookup_cases' if eager else 'lazy_lookup_cases')
             for o in outcomes:
                 if isinstance(o, BaseException) and not isinstance(o, asyncio.CancelledError):
                     runner.violation(res, f'concurrent:unexpected-exception:{type(o).__name__}', ops=ops, state=state,
